@@ -2610,6 +2610,11 @@ class SFTPHandler(SSHPacketLogger):
             await self._cleanup(None)
         except (OSError, Error) as exc:
             await self._cleanup(exc)
+        except Exception as exc:
+            # Make sure outstanding requests are failed no matter what
+            # ended the session
+            await self._cleanup(exc)
+            raise
 
 
 class SFTPClientHandler(SFTPHandler):
